@@ -6,8 +6,9 @@ export CARGO_NET_OFFLINE=true
 mkdir -p .work coq/gen evidence replays
 PY=python3-vt; command -v $PY >/dev/null 2>&1 || PY=python3
 $PY - <<'PYEOF'
-import sys; sys.path.insert(0, 'tools')
+import sys, subprocess; sys.path.insert(0, 'tools')
 from gv import proofs, runner
+subprocess.run([sys.executable, 'tools/cfg2coq.py', '/repo', 'coq/gen/FeaturesGen.v'], check=True)
 proofs.ensure_makefile()
 ok, log, dt = proofs.make([], timeout=3400)
 print('coq build ok=%s in %.0fs' % (ok, dt))
